@@ -142,7 +142,7 @@ def load_theorems(prop: str) -> list:
     return json.loads(f.read_text()) if f.exists() else []
 
 
-def build_and_audit(prop: str) -> dict:
+def build_and_audit(prop: str, tier: str = "quick") -> dict:
     """Steps A and B.  Returns {'ok':bool, 'obligations':n, 'discharged':m, 'problems':[...], 'theorems':[...]}."""
     res = {"ok": True, "problems": [], "obligations": 0, "discharged": 0, "theorems": [], "axioms": {}}
     lock = open(LEAN / ".build.lock", "w")
@@ -157,6 +157,17 @@ def build_and_audit(prop: str) -> dict:
     finally:
         fcntl.flock(lock, fcntl.LOCK_UN)
         lock.close()
+    # A2 (thorough tier): independent re-check of the compiled theorem modules with leanchecker
+    if tier == "thorough" and res["ok"]:
+        mods = sorted({t["module"] for t in load_theorems(prop)})
+        try:
+            r = _lake(["env", "leanchecker"] + mods, timeout=3000)
+            res["leanchecker"] = "ok" if r.returncode == 0 else "failed"
+            if r.returncode != 0:
+                res["ok"] = False
+                res["problems"].append("leanchecker rejected " + " ".join(mods) + ": " + (r.stdout + r.stderr)[-1500:])
+        except subprocess.TimeoutExpired:
+            res["leanchecker"] = "timeout (not counted)"
     # B1 forbidden tokens
     for p in lean_sources():
         m = FORBIDDEN.search(strip_comments(p.read_text()))
@@ -348,6 +359,7 @@ class Ctx:
                 "trusted_base": TRUSTED_BASE,
                 "theorems": [t["name"] for t in audit["theorems"]],
                 "axioms_used": audit.get("axioms", {}),
+                **({"leanchecker": audit["leanchecker"]} if "leanchecker" in audit else {}),
                 "evaluations": self.evaluations,
                 "distinct_nontrivial": len(self.nontrivial),
                 "rule": self.rule,
